@@ -183,7 +183,7 @@ Qed.
 Definition rm_region : region := Region [Peer 1 101 Voter; Peer 2 99 Learner] 1 7 1.
 Definition rm_step : step := RemovePeer 2 12.
 Definition rm_ctl : ctl :=
-  Ctl [(1, rm_region)] [(1, rm_region)] [Opr 1 1 6 1 [rm_step] 0 STARTED 1 false 1 false false] [(1, 1)] [] [] [] [] 5.
+  Ctl [(1, rm_region)] [(1, rm_region)] [Opr 1 1 6 1 [rm_step] 0 STARTED 1 false 1 false false] [(1, 1)] [] [] [] [] 5 [].
 
 Lemma rm_not_cancelled :
   let c' := fst (ctl_step rm_ctl (EHeartbeat 1)) in
